@@ -79,8 +79,12 @@ def same_curve(h, a, b, tol, label):
     if len(a) != len(b) or any(x[0] != y[0] for x, y in zip(a, b)):
         return h.check(False, label + ".structure", detail=("".join(x[0] for x in a), "".join(y[0] for y in b)))
     conds = []
+    fars = []
+    gap = tol + fractions.Fraction(1, 1000)
     for x, y in zip(a, b):
         for p, q in zip(PI.seg_points(x), PI.seg_points(y)):
+            fars.append(h.far(p[0], q[0], gap))
+            fars.append(h.far(p[1], q[1], gap))
             if tol == 0:
                 conds.append(h.eq(p[0], q[0]))
                 conds.append(h.eq(p[1], q[1]))
@@ -94,7 +98,7 @@ def same_curve(h, a, b, tol, label):
                 return h.check(False, label + ".arcflags")
     if not conds:
         return h.check(True, label)
-    return h.check(h.and_(*conds), label)
+    return h.check(h.and_(*conds), label, robust=h.or_(*fars) if h.symbolic else None)
 
 
 class ArcRecorder:
@@ -499,6 +503,12 @@ def cases(tier, seed):
                 continue
             for rest in itertools.product(LETTERS, repeat=k):
                 cs.append({"kind": "walk", "seq": first + "".join(rest)})
+    if tier == "quick":
+        # targeted k=3: (second moveto | line) then closepath then every letter
+        # ("z followed by drawing commands", "repeated moveto" of the property text)
+        for x in "mMlLq":
+            for y in LETTERS:
+                cs.append({"kind": "walk", "seq": "M" + x + "z" + y, "sub": True})
     if tier != "quick":
         for rest in itertools.product(SUB4, SUB4, "LlzCcSsQqTt", "zcsqtl"):
             cs.append({"kind": "walk", "seq": "M" + "".join(rest), "sub": True})
@@ -514,7 +524,7 @@ def case_cost(case):
 
 def rewrites_for(case, tier):
     if case.get("sub"):
-        return ["absolute", "relative", "expand_shorthand", "as_cmd_seq", "subpaths"]
+        return ["absolute", "relative", "explicit_lines", "expand_shorthand", "as_cmd_seq", "subpaths"]
     return REWRITES
 
 
@@ -602,7 +612,7 @@ def describe(tier):
             "data; every numeric argument is a z3 real; the oracle is an independent SVG path interpreter applied to input and output."
         ),
         "bounds": {
-            "letters_after_initial_moveto": f"all 20^k sequences for k<=({kmax}), initial M and m" + ("; k=4 over sub-alphabet MmLlzCcSsQqTt x MmLlzCcSsQqTt x LlzCcSsQqTt x zcsqtl" if tier != "quick" else ""),
+            "letters_after_initial_moveto": f"all 20^k sequences for k<=({kmax}), initial M and m" + ("; plus M{m,M,l,L,q}z{any letter}" if tier == "quick" else "") + ("; k=4 over sub-alphabet MmLlzCcSsQqTt x MmLlzCcSsQqTt x LlzCcSsQqTt x zcsqtl" if tier != "quick" else ""),
             "arc_flags": "2 of 4 (large,sweep) pairs per arc (quick) / all 4 (thorough, k<=2)",
             "numbers": "all reals (unbounded); multiple_of > 0; shape sizes >= 0",
             "tolerance": "point equality within 1e-9*(#commands+1) where _rewrite_path may snap; exact elsewhere",
